@@ -487,6 +487,9 @@ def _p2p_indexed(program, folder, rep, fn, T, COL, HEIGHT, RAW):
                  ("binop", "RShift", V("w"), V("sh")))):
         m = m or match(pat, X)
     if m is None or m["w"][0] != "item":
+        # word by word with a count of entries per word: that count, at
+        # least, can be folded for every height and word
+        _p2p_entries_per_word(rep, fn, T, HEIGHT, stmt, inst)
         raise AnalysisError("the column decode is in a form that is not "
                             "analysed")
     WORDS, WI = m["w"][1], m["w"][2]
@@ -533,6 +536,102 @@ def _p2p_indexed(program, folder, rep, fn, T, COL, HEIGHT, RAW):
               construct="entry extraction", node=fn,
               fail="the entry stored for (col, row) is not bits 3(row % 8)+2"
                    ":3(row % 8) of word row // 8 of that column")
+
+
+def _p2p_entries_per_word(rep, fn, T, HEIGHT, stmt, inst):
+    """Word k of a column of height h carries min(8, h - 8k) entries.  Read
+    off a decode of the form ``for k, word in enumerate(words): ... for e
+    in range(<count>): table[...] = ...`` by folding <count> for every h in
+    1..255 and every word of the column (a necessary condition only: which
+    bits and which row each entry gets is not judged here)."""
+    from ..terms import eval_closed
+    inner = stmt._parent
+    while inner is not None and not isinstance(inner, ast.For):
+        inner = inner._parent
+    outer = inner._parent if inner is not None else None
+    while outer is not None and not isinstance(outer, ast.For):
+        outer = outer._parent
+    if inner is None or outer is None or not (
+            isinstance(inner.iter, ast.Call) and
+            call_name(inner.iter)[0] == "range" and
+            len(inner.iter.args) == 1 and
+            isinstance(outer.target, ast.Tuple) and
+            len(outer.target.elts) == 2 and
+            isinstance(outer.iter, ast.Call) and
+            call_name(outer.iter)[0] == "enumerate" and
+            len(outer.iter.args) == 1):
+        return
+    hn = T.cfg.loop_head[id(inner)]
+    K = plain(T.term(outer.target.elts[0], hn))
+    Hh = plain(HEIGHT)
+    count = inner.iter.args[0]
+    cases = []
+    ct = plain(T.term(count, hn))
+    if not any(st_[0] in ("mu", "phi", "rec", "opaque")
+               for st_ in subterms(ct)):
+        cases = [(None, ct)]
+    else:
+        ifs = [i_ for i_ in outer.body if isinstance(i_, ast.If) and
+               isinstance(count, ast.Name) and all(
+                   any(isinstance(a_, ast.Assign) and
+                       len(a_.targets) == 1 and
+                       isinstance(a_.targets[0], ast.Name) and
+                       a_.targets[0].id == count.id for a_ in br)
+                   for br in (i_.body, i_.orelse))]
+        if len(ifs) != 1:
+            return
+        an = [a_ for a_ in T.cfg.nodes if a_.kind == "assume" and
+              a_.ast is ifs[0].test and a_.polarity]
+        if len(an) != 1:
+            return
+        c_, pol_ = T.cond(an[0].ast, an[0], True)
+        for v_ in (True, False):
+            HT = T.under((c_, v_ == pol_))
+            cv = plain(HT.term(count, HT.cfg.loop_head[id(inner)]))
+            if any(st_[0] in ("mu", "phi", "rec", "opaque")
+                   for st_ in subterms(cv)):
+                return
+            cases.append(((plain(c_), v_ == pol_), cv))
+
+    def at(t_, h_, k_):
+        # (the word number first: its own term mentions the height)
+        t_ = _replace_t(t_, K, ("const", k_))
+        return eval_closed(_replace_t(t_, Hh, ("const", h_)))
+    try:
+        for h_ in range(1, 256):
+            for k_ in range((h_ + 7) // 8):
+                got = None
+                for cond_, val_ in cases:
+                    if cond_ is None or bool(at(cond_[0], h_, k_)) == \
+                            cond_[1]:
+                        got = at(val_, h_, k_)
+                        break
+                want = min(8, h_ - 8 * k_)
+                if got != want:
+                    rep.bad("C14-R2", inst, "entries per word",
+                            "for a machine %d chips high, word %d of a "
+                            "column is decoded into %r entries; it holds "
+                            "%d (min(8, height - 8 * word)): rows %d..%d of "
+                            "every column are %s" % (
+                                h_, k_, got, want, 8 * k_,
+                                8 * k_ + want - 1,
+                                "missing from the table" if (got or 0) < want
+                                else "followed by rows that do not exist"),
+                            inner)
+                    return
+    except AnalysisError:
+        return
+    rep.ok("C14-R2", inst, "word k of a column of height h is decoded into "
+           "min(8, h - 8k) entries (folded for h = 1..255)", inner)
+
+
+def _replace_t(t, old, new):
+    if t == old:
+        return new
+    if not isinstance(t, tuple) or not t or t[0] == "const":
+        return t
+    return tuple(_replace_t(x, old, new) if isinstance(x, tuple) else x
+                 for x in t)
 
 
 def _p2p_stream(program, folder, rep, fn):
